@@ -5,6 +5,9 @@ import (
 	"fmt"
 	"math/big"
 	"strings"
+	dtpb "github.com/google/fhir/go/proto/google/fhir/proto/r4/core/datatypes_go_proto"
+	"github.com/verily-src/fhirpath-go/fhirpath"
+	"github.com/verily-src/fhirpath-go/fhirpath/evalopts"
 
 	"github.com/verily-src/fhirpath-go/fhirpath/verifharness/core"
 	"github.com/verily-src/fhirpath-go/fhirpath/verifharness/fx"
@@ -20,7 +23,7 @@ func init() {
 		Assumptions: []string{"a sub-day unit added to a Date may be converted or rejected; definite UCUM codes may be rejected or treated like their keyword; results outside 0001..9999 may be error or empty",
 			"fractional amounts: whole part used, except fractional seconds on second/millisecond precision (either reading accepted)"},
 		Run:    runC09,
-		Checks: map[string]func(*core.Env, []json.RawMessage){"arith": replayC09, "qty": replayC09Qty},
+		Checks: map[string]func(*core.Env, []json.RawMessage){"arith": replayC09, "qty": replayC09Qty, "qtyelem": func(env *core.Env, a []json.RawMessage) { c09QuantityElements(env) }},
 		Threshold: func(m *core.Merged) []string {
 			var r []string
 			for _, k := range []string{"kind:Date", "kind:DateTime", "kind:Time", "clamp", "finer-unit", "coarser-unit", "non-temporal-unit", "inverse-law", "monotone", "wrap-midnight", "offset-preserved", "quantity-arith"} {
@@ -101,6 +104,12 @@ func c09Arith(env *core.Env, kind, xText, amount, unit string, sign int) (model.
 		return model.Temporal{}, false // outside 0001..9999: the statement does not constrain the outcome
 	}
 	if r.IsError() {
+		// the library documents a bound on the amount (10^8 in the unit the addition is carried out in): refusing a huge
+		// amount is an orderly outcome, a wrong sum is not
+		if am, ok := model.ParseNum(amount); ok && new(big.Rat).Abs(am).Cmp(big.NewRat(99999, 1)) > 0 && strings.Contains(r.Err.Error(), "out of range") {
+			env.Cover("amount-bound-refused")
+			return model.Temporal{}, false
+		}
 		if !(res.MayError || res.OutOfRange) {
 			env.Violatef("C09/"+cls+"/unexpected-error", "`%s`: expected %s, observed %s", src, res.Value, trunc(r.Short(), 140))
 		}
@@ -213,7 +222,9 @@ var c09Amounts = []string{"0", "1", "11", "12", "13", "23", "24", "25", "59", "6
 	// negative amounts, whole and fractional (the fraction is dropped towards zero, then the sign applies)
 	"-1", "-1.5", "-0.5", "-13", "-2.999",
 	// fractions that have no exact binary representation (a fractional second is either dropped or applied exactly)
-	"1.001", "1.005", "2.003", "0.007", "2.999", "0.001", "1.009"}
+	"1.001", "1.005", "2.003", "0.007", "2.999", "0.001", "1.009",
+	// amounts whose sub-day span exceeds what a 64-bit nanosecond count holds (292 years)
+	"2562047", "2562048", "3000000"}
 
 func c09Values(env *core.Env) [][2]string {
 	var out [][2]string
@@ -287,6 +298,9 @@ func runC09(env *core.Env) {
 		}
 	}
 	c09Quantities(env)
+	if env.Shard == 1%env.NShards {
+		c09QuantityElements(env)
+	}
 }
 
 func c09Monotone(env *core.Env, kind, xText, unit string) {
@@ -355,6 +369,40 @@ func replayC09Qty(env *core.Env, x []json.RawMessage) {
 	json.Unmarshal(x[1], &op)
 	json.Unmarshal(x[2], &b)
 	c09QtyCheck(env, a, op, b)
+}
+
+// c09QuantityElements: the amount of a Quantity *element* may be written in exponent form; it is the same amount.
+func c09QuantityElements(env *core.Env) {
+	defer env.In("qtyelem")()
+	env.Case()
+	for _, c := range []struct {
+		val string
+		n   int
+	}{{"1e3", 1000}, {"1E+2", 100}, {"10e1", 100}, {"1.5e1", 15}, {"1000", 1000}, {"2e0", 2}, {"12", 12}, {"0.1e2", 10}, {"25e-1", 2}} {
+		for _, u := range []string{"days", "day", "hours", "months", "years", "weeks", "minutes"} {
+			for _, x := range []string{"@2020-01-31", "@2020-01-31T10:30:00Z", "@2019-02-28T23:59:59.999+05:30", "@T10:30"} {
+				if strings.HasPrefix(x, "@T") && (u == "days" || u == "day" || u == "months" || u == "years" || u == "weeks") {
+					continue
+				}
+				if c.n >= 1000 && u == "years" {
+					continue
+				}
+				q := &dtpb.Quantity{Value: &dtpb.Decimal{Value: c.val}, Unit: &dtpb.String{Value: u}, Code: &dtpb.Code{Value: u}}
+				for _, op := range []string{"+", "-"} {
+					re := fx.Eval(env, x+" "+op+" %q", nil, nil, []fhirpath.EvaluateOption{evalopts.EnvVariable("q", q)})
+					rl := fx.E(env, fmt.Sprintf("%s %s %d %s", x, op, c.n, u))
+					env.Cover("quantity-element-amount")
+					if re.IsPanic() {
+						env.Violatef(fx.PanicSig("C09", re), "`%s %s %%q` with q = Quantity{value %q, unit %s} => %s", x, op, c.val, u, re.Short())
+						continue
+					}
+					if !fx.Same(re, rl) {
+						env.Violatef("C09/quantity-element/amount-differs-from-literal", "`%s %s %%q` with q = Quantity element {value %q, unit %s} gives %s; `%s %s %d %s` gives %s", x, op, c.val, u, trunc(re.Short(), 80), x, op, c.n, u, trunc(rl.Short(), 80))
+					}
+				}
+			}
+		}
+	}
 }
 
 func c09Quantities(env *core.Env) {
